@@ -701,7 +701,7 @@ func (v tver) process(name, rest string) map[string]string {
 }
 
 func partB2() {
-	n := mon.N(150, 6000)
+	n := mon.N(150, 3000)
 	words := []string{"foo", "bar", "baz", "qux"}
 	for h := 0; h < n; h++ {
 		r := mon.NewRng(mon.Seed(), 186, uint64(h))
@@ -984,7 +984,7 @@ func partC() {
 // ---------------------------------------------------------------- part E
 
 func partE() {
-	nh := mon.N(100, 10000)
+	nh := mon.N(100, 6000)
 	for h := 0; h < nh; h++ {
 		if !mon.Mine(h) {
 			continue
